@@ -268,9 +268,9 @@ def run(rep):
     for k, v in trace_stats(COMP, traces).items():
         rep.add("impl_" + k, v)
     T("record")
-    mh.validate_grouped(COMP, traces, rep, namer, classer)
+    rej = mh.validate_grouped(COMP, traces, rep, namer, classer)
     T("validate")
-    mh.corrupt_pub_self_test(COMP, traces, rep, random.Random(rep.seed))
+    mh.corrupt_pub_self_test(COMP, mh.accepted(traces, rej), rep, random.Random(rep.seed))
     T("selftest")
     dis = [c for c in cfgs if c["ways"] == 1 or not c["en"]]
     mh.disabled_no_hardware(__name__, "build", dis if thorough else dis[::9], rep, namer)
